@@ -50,16 +50,16 @@ type demoSub struct {
 	Timeout time.Duration `dials:"timeout"`
 }
 type demoCfg struct {
-	Name  string            `dials:"name"`
-	Lvl   uint8             `dials:"lvl" json:"jl" yaml:"yl" toml:"tl"`
-	On    bool              `dials:"on"`
-	Sub   demoSub           `dials:"sub"`
-	PSub  *demoSub          `dials:"psub"`
-	Tags  []string          `dials:"tags"`
-	M     map[string]int    `dials:"m"`
-	Subs  []demoSub         `dials:"subs"`
-	Wait  time.Duration     `dials:"wait"`
-	Ms    map[string]string `dials:"ms"`
+	Name string            `dials:"name"`
+	Lvl  uint8             `dials:"lvl" json:"jl" yaml:"yl" toml:"tl"`
+	On   bool              `dials:"on"`
+	Sub  demoSub           `dials:"sub"`
+	PSub *demoSub          `dials:"psub"`
+	Tags []string          `dials:"tags"`
+	M    map[string]int    `dials:"m"`
+	Subs []demoSub         `dials:"subs"`
+	Wait time.Duration     `dials:"wait"`
+	Ms   map[string]string `dials:"ms"`
 }
 
 func demo() {
